@@ -24,7 +24,7 @@ fn all_strings(len: usize) -> Vec<Vec<u8>> {
     out
 }
 
-fn leaves(rng: &mut Rng, stats: &mut Stats, tier: Tier) -> Vec<Exp> {
+pub fn leaves(rng: &mut Rng, stats: &mut Stats, tier: Tier) -> Vec<Exp> {
     let mut v = vec![Exp::Always];
     for q in ["", "a", "b", "ab", "ba", "aa", "abz", "aba", "zab"] {
         v.push(Exp::Str(q.as_bytes().to_vec()));
@@ -42,7 +42,7 @@ fn leaves(rng: &mut Rng, stats: &mut Stats, tier: Tier) -> Vec<Exp> {
     v
 }
 
-fn random_exp(rng: &mut Rng, leaves: &[Exp], depth: usize) -> Exp {
+pub fn random_exp(rng: &mut Rng, leaves: &[Exp], depth: usize) -> Exp {
     if depth == 0 {
         return rng.pick(leaves).clone();
     }
